@@ -27,14 +27,14 @@
   under EVERY layout: any white space, line breaks and comment lines in front of, between and
   behind the values, any white space between the parts of a string and between the bytes of a
   blob.  No bound on the number of values, parts, gaps or characters; induction over the token list.
-  Also proved (`Ranged`, `…_ranges_partial`): ranges `b ... c` of decimal 'i' integers anywhere at top
-  level of such a sentence, standing first or behind a scalar value, `nx<scalar>` or another such
-  range: `a b ... c` with the step `b - a`, the step ±1 behind values of other types.
+  Also proved (`Ranged`, `…_ranges_partial`): ranges `b ... c` of decimal 'i' integers anywhere in such a
+  sentence — at top level and inside arrays nested to any depth —, standing first (in the sentence, in
+  their array) or behind a scalar value, `nx<scalar>`, another such range, an array or `nx[array]`:
+  `a b ... c` with the step `b - a`, the step ±1 behind values of other types and behind arrays.
   Not proved, covered by the correspondence check and the oracle only: octal spellings, hex with
   a suffix or for 'h',
   floats and doubles in every notation, upper-case colours, other blanks inside MIDI,
-  `b ... c` ranges of c / h / f / d or in other spellings, ranges directly behind an array, ranges
-  inside arrays, arrays with an open end; and
+  `b ... c` ranges of c / h / f / d or in other spellings (hex, suffix `i`), arrays with an open end; and
   `print_scan_fixpoint` for arrays and for values the printer compresses (`nxA`, five equal-typed
   values in a row).
   Known finding C11-K1 (`scan_denotes_counterexample`, `checker_scanner_agree_counterexample`): an
@@ -45,6 +45,7 @@
 import RtoscModel.Proofs.ScanPrint
 import RtoscModel.Proofs.ScanRange
 import RtoscModel.Proofs.ScanRangeSpec
+import RtoscModel.Proofs.ScanRangeArrSpec
 namespace Rtosc.Pretty.C11
 open Rtosc Rtosc.Libc Rtosc.Pretty
 open Rtosc.ArgVal (Cell Item flatList expandList)
@@ -264,8 +265,8 @@ theorem reads_range_first (x z : Int) (hx1 : -2147483648 ≤ x) (hx2 : x ≤ 214
     `b ... c v₁ v₂ …` (b ≠ c decimal 'i' integers with `|c - b| + 1 < 2³¹` values, `vᵢ` `Proved`)
     denotes `|c - b| + 1` values from `b` in steps of ±1, and the checker counts and the scanner writes
     exactly the cells of that denotation, consuming the whole text.  (Ranges with a left neighbour:
-    `checker_scanner_agree_ranges_partial` below; ranges inside arrays, of other types or spellings,
-    and open-ended arrays are NOT proved: correspondence and oracle only.) -/
+    `checker_scanner_agree_ranges_partial` below, also behind and inside arrays; ranges of other types
+    or spellings and open-ended arrays are NOT proved: correspondence and oracle only.) -/
 theorem range_first_partial (x z : Int) (hx1 : -2147483648 ≤ x) (hx2 : x ≤ 2147483647)
     (hz1 : -2147483648 ≤ z) (hz2 : z ≤ 2147483647) (hxz : x ≠ z) (hwid : (z - x).natAbs ≤ 2147483646)
     (s' : Sentence) (L : Layout) (hL : L.spaced) (hb : L.blank [0, 1] ≠ []) (hp : provedFrom L 1 s') :
@@ -480,44 +481,32 @@ example : ∃ cs, cells (rangeFirst 10 2 [.val (.str false [[.raw 115]]), .arr [
 /-! ### ranges anywhere at top level -/
 
 /-- the sentences for which the first three clauses are proved in addition to `Proved`: every value
-    has proved agreement (`SVal.proved`: scalars in proved spellings, arrays, `nxA`) or is a range
+    has proved agreement in the wider sense (`SVal.rproved`: scalars in proved spellings, `nxA`, and
+    arrays without open end whose ELEMENTS are again such values or ranges) or is a range
     `b ... c` of two 'i' integers in plain decimal spelling with at least one white-space character in
-    front of the dots, that stands first in the sentence or behind a scalar value, a repetition
-    `nx<scalar>` or another such range (`rangedFrom`), and satisfies `RangeOK`: the step — `b - a`
+    front of the dots, that stands first in the sentence (in its array) or behind a scalar value, a
+    repetition `nx<scalar>`, another such range, an array or a repeated array `nx[…]`
+    (`rangedFromA` / `rangedElemsG`), and satisfies `RangeOK`: the step — `b - a`
     if the value `a` to the left is an 'i' integer different from `b` (for a range to the left: its
-    right end), else ±1 — is an `int32_t` that reaches `c` from `b` in 1 … 2³¹-2 steps, and the width
+    right end), else ±1 (also behind an array: its last element is not the left neighbour, fix
+    C11-04) — is an `int32_t` that reaches `c` from `b` in 1 … 2³¹-2 steps, and the width
     `c - b` is an `int32_t` -/
-def Ranged (s : Sentence) (L : Layout) : Prop := L.spaced ∧ rangedFrom L 0 (some none) s
+def Ranged (s : Sentence) (L : Layout) : Prop := L.spaced ∧ rangedFromA L 0 (some none) s
 
 /-- every `Proved` sentence is `Ranged` -/
-theorem Proved.ranged {s : Sentence} {L : Layout} (h : Proved s L) : Ranged s L := by
-  refine ⟨h.1, ?_⟩
-  have key : ∀ (s : Sentence) (i : Nat) (o : Option (Option Int)), provedFrom L i s → rangedFrom L i o s := by
-    intro s
-    induction s with
-    | nil => intro i o _; trivial
-    | cons v r ih =>
-      intro i o hp
-      obtain ⟨hv, hr⟩ := hp
-      unfold rangedFrom
-      have : v.iRange = none := by
-        cases v with
-        | range _ _ => simp [SVal.proved] at hv
-        | _ => rfl
-      rw [this]
-      exact ⟨hv, ih (i + 1) _ hr⟩
-  exact key s 0 _ h.2
+theorem Proved.ranged {s : Sentence} {L : Layout} (h : Proved s L) : Ranged s L :=
+  ⟨h.1, rangedFromA_of_proved L s 0 _ h.2⟩
 
 /-- a `Ranged` sentence is read as its cells, under every layout in which no comment follows a
     value directly -/
-theorem reads_ranged (s : Sentence) (L : Layout) (h : Ranged s L) : Reads (render s L) (rcells (some none) s) := by
+theorem reads_ranged (s : Sentence) (L : Layout) (h : Ranged s L) : Reads (render s L) (rcellsE (some none) s) := by
   by_cases hs : s = []
   · subst hs
     have := reads_proved [] L ⟨h.1, trivial⟩
-    simpa [rcells, pCells, pcellsList] using this
-  · have hlay := layR_ranged L h.1.1 (trailBytes L.trail L.last) (tail_trail L.trail L.last h.1.2) s 0 .first (some none) hs
+    simpa [rcellsE, pCells, pcellsList] using this
+  · have hlay := layR_rangedA L h.1.1 (trailBytes L.trail L.last) (tail_trail L.trail L.last h.1.2) s 0 .first (some none) hs
       ⟨by simp, rfl⟩ h.2
-    have hcells := allCells_rArgs L s 0 (some none)
+    have hcells := allCells_rArgsA L s 0 (some none)
     have hr : render s L = gapsBytes L.lead ++ (valuesText L 0 s ++ trailBytes L.trail L.last) := by
       simp [render]
     rw [hr]
@@ -529,7 +518,8 @@ theorem reads_ranged (s : Sentence) (L : Layout) (h : Ranged s L) : Reads (rende
 
 /-- **checker_scanner_agree** (ranges with a left neighbour, proved part): for every `Ranged`
     sentence of any length — `a b ... c` with the step taken from `a` and `b`, ranges behind
-    ranges, behind values of other types, behind `nx<scalar>`, anywhere among values with proved
+    ranges, behind values of other types, behind `nx<scalar>`, behind arrays and `nx[array]`, at top
+    level and inside arrays of any nesting depth, anywhere among values with proved
     agreement — the checker counts exactly the cells the scanner writes and the scanner consumes the
     whole text. -/
 theorem checker_scanner_agree_ranges_partial (s : Sentence) (L : Layout) (h : Ranged s L) :
@@ -543,7 +533,7 @@ theorem checker_scanner_agree_ranges_partial (s : Sentence) (L : Layout) (h : Ra
     `(c - b) / (b - a) + 1`, the step `b - a` and the start `b`. -/
 theorem scan_denotes_ranges_partial (s : Sentence) (L : Layout) (cs : List Cell) (h : Ranged s L)
     (hc : cells s = some cs) : Reads (render s L) cs := by
-  rw [cells_ranged L s h.2] at hc
+  rw [cells_rangedA L s h.2] at hc
   cases hc
   exact reads_ranged s L h
 
@@ -584,10 +574,10 @@ theorem rangeOK_of_b (nb : Option Int) (x z : Int) (h : rangeOKb nb x z = true) 
 theorem exRanged_ranged : Ranged exRanged exLayoutRanged := by
   refine ⟨⟨exLayout_spaced.1, exLayout_spaced.2⟩, ?_⟩
   unfold exRanged
-  simp only [rangedFrom, SVal.iRange, SVal.offer, SVal.proved, provedElems, SVal.repeatable, Tok.cell, nbInt,
+  simp only [rangedFromA, rangedElemsG, SVal.iRange, SVal.next, SVal.offer, SVal.rproved, SVal.repeatable, Tok.cell, nbInt,
     and_true, true_and]
-  refine ⟨?_, ⟨_, rfl, ?_⟩, ?_, ?_, ⟨_, rfl, ?_⟩, ?_, ⟨_, rfl, ?_⟩, ?_, ?_, ⟨_, rfl, ?_⟩, ?_, ?_, ?_, ⟨_, rfl, ?_⟩, ?_⟩
-  all_goals first | exact rangeOK_of_b _ _ _ (by decide +kernel) | decide +kernel
+  repeat' apply And.intro
+  all_goals first | exact ⟨_, rfl, rangeOK_of_b _ _ _ (by decide +kernel)⟩ | decide +kernel
 
 example : String.ofList ((render exRanged { L0 with blank := exLayoutRanged.blank }).map (fun b => Char.ofNat b.toNat)) =
     "10 8 \n...2 \"s\" 7 \n...9 12 \n...18 2x5 6 \n...9 [1 2] 'c' 1 \n...2" := by decide +kernel
@@ -598,7 +588,49 @@ example : cells exRanged = some
      .rep 3 1, .int .i 3, .int .i 12, .rep 2 0, .int .i 5, .rep 4 1, .int .i 1, .int .i 6,
      .arr 105 2, .int .i 1, .int .i 2, .int .c 99, .rep 2 1, .int .i 1, .int .i 1] ∧
     ∃ cs, cells exRanged = some cs ∧ Reads (render exRanged exLayoutRanged) cs := by
-  refine ⟨by decide +kernel, _, cells_ranged _ _ exRanged_ranged.2, reads_ranged _ _ exRanged_ranged⟩
+  refine ⟨by decide +kernel, _, cells_rangedA _ _ exRanged_ranged.2, reads_ranged _ _ exRanged_ranged⟩
+
+/-- `[1 2] 5 ...9 3x[7] 2 ...0 [1 3 ...7 8 ...10 2x5 6 ...7] [[1 ...3] [2 4 ...8]] 1 ...2`: ranges directly
+    behind an array and behind a repeated array (the last element inside is NOT the left neighbour: steps +1
+    and -1), ranges inside an array (behind a scalar: step 3 - 1 = 2; behind a range: its end 7 gives the
+    step 1; behind `2x5`: step 1), ranges as the first element of nested arrays, a range behind an array
+    of arrays -/
+def exRangedArr : Sentence :=
+  [.arr [.val (.int 1 .dec false), .val (.int 2 .dec false)] false, .range (.int 5 .dec false) (.int 9 .dec false),
+   .rep 3 (.arr [.val (.int 7 .dec false)] false), .range (.int 2 .dec false) (.int 0 .dec false),
+   .arr [.val (.int 1 .dec false), .range (.int 3 .dec false) (.int 7 .dec false),
+         .range (.int 8 .dec false) (.int 10 .dec false), .rep 2 (.val (.int 5 .dec false)),
+         .range (.int 6 .dec false) (.int 7 .dec false)] false,
+   .arr [.arr [.range (.int 1 .dec false) (.int 3 .dec false)] false,
+         .arr [.val (.int 2 .dec false), .range (.int 4 .dec false) (.int 8 .dec false)] false] false,
+   .range (.int 1 .dec false) (.int 2 .dec false)]
+
+/-- the messy layout with a blank in front of the dots of every range, at every depth -/
+def exLayoutArr : Layout :=
+  { exLayout with blank := fun p => if p.getLast? = some 1 ∧ 2 ≤ p.length then [.sp] else [] }
+
+theorem exRangedArr_ranged : Ranged exRangedArr exLayoutArr := by
+  refine ⟨⟨exLayout_spaced.1, exLayout_spaced.2⟩, ?_⟩
+  unfold exRangedArr
+  simp only [rangedFromA, rangedElemsG, SVal.iRange, SVal.next, SVal.offer, SVal.rproved, SVal.repeatable, Tok.cell, nbInt,
+    and_true, true_and]
+  repeat' apply And.intro
+  all_goals first | exact ⟨_, rfl, rangeOK_of_b _ _ _ (by decide +kernel)⟩ | decide +kernel
+
+example : String.ofList ((render exRangedArr { L0 with blank := exLayoutArr.blank }).map (fun b => Char.ofNat b.toNat)) =
+    "[1 2] 5 ...9 3x[7] 2 ...0 [1 3 ...7 8 ...10 2x5 6 ...7] [[1 ...3] [2 4 ...8]] 1 ...2" := by decide +kernel
+
+/-- non-vacuity for ranges behind and inside arrays: the example is `Ranged`, its cells are what the
+    specification says, and they are read under the messy layout -/
+example : cells exRangedArr = some
+    [.arr 105 2, .int .i 1, .int .i 2, .rep 5 1, .int .i 1, .int .i 5, .rep 3 0, .arr 105 1, .int .i 7,
+     .rep 3 1, .int .i (-1), .int .i 2,
+     .arr 105 12, .int .i 1, .rep 3 1, .int .i 2, .int .i 3, .rep 3 1, .int .i 1, .int .i 8, .rep 2 0, .int .i 5,
+     .rep 2 1, .int .i 1, .int .i 6,
+     .arr 97 9, .arr 105 3, .rep 3 1, .int .i 1, .int .i 1, .arr 105 4, .int .i 2, .rep 3 1, .int .i 2, .int .i 4,
+     .rep 2 1, .int .i 1, .int .i 1] ∧
+    ∃ cs, cells exRangedArr = some cs ∧ Reads (render exRangedArr exLayoutArr) cs := by
+  refine ⟨by decide +kernel, _, cells_rangedA _ _ exRangedArr_ranged.2, reads_ranged _ _ exRangedArr_ranged⟩
 
 /-! ### two findings on the way (hypotheses the `Ranged` class needs)
 
@@ -606,11 +638,11 @@ example : cells exRanged = some
     bounds the number of steps; `a b ... c` with `|c - b| > 2³¹-1` (possible when `b - a` is large)
     denotes a range in the manual's reading, while `delta_from_arg_vals` computes `c - b` in `int`
     (signed overflow in C, wrapped in the model) and the checker rejects the text.
-  * the left neighbour of a range must not be an array in the proved class: the MODEL of the checker
-    re-skips the previous argument with the recursion bound of the CURRENT position
-    (`C11.ellipsisTail` is handed `skipNextPrintedArg fuel` with `fuel = |rest of the text| + 1`), so an
-    array nested deeper than the rest of the text is long runs out of fuel.  The C code has no such
-    bound: this is an artefact of the model (never reached by the generator: nesting ≤ 3). -/
+  * (repaired) the MODEL of the checker used to re-skip the previous argument with the recursion bound of the
+    CURRENT position (`fuel = |rest of the text| + 2`), so a left neighbour nested deeper than the rest of the
+    text is long ran out of fuel although the C code has no such bound.  `C11.countLoop` now hands
+    `lookBackFuel src recent` (the length of the text from the previous argument on) to
+    `rtosc_skip_next_printed_arg`; `deep_neighbour_reads` evaluates the former witness. -/
 
 def nest : Nat → SVal → SVal
   | 0, v => v
@@ -618,12 +650,6 @@ def nest : Nat → SVal → SVal
 
 /-- `[[[[[[[[1]]]]]]]] 2...5` -/
 def exDeep : Sentence := [nest 8 (.val (.int 1 .dec false)), .range (.int 2 .dec false) (.int 5 .dec false)]
-
-/-- model artefact: the recursion bound of the checker's look-back at the left neighbour -/
-theorem deep_neighbour_model_fuel : Sentence.wf exDeep = true ∧ (cells exDeep).isSome = true ∧
-    C11.countPrintedArgVals (render exDeep L0) = .error .fuel ∧
-    C11.countPrintedArgVals (render [nest 3 (.val (.int 1 .dec false)), .range (.int 2 .dec false) (.int 5 .dec false)] L0) = .ok 7 := by
-  decide +kernel
 
 /-- `-2100000000 -1500000000...900000000` -/
 def exWide : Sentence := [.val (.int (-2100000000) .dec false), .range (.int (-1500000000) .dec false) (.int 900000000 .dec false)]
@@ -654,6 +680,13 @@ theorem agrees_reads (s : Sentence) (L : Layout) (h : agrees s L = true) :
     rw [hc] at h
     simp only [Bool.and_eq_true, decide_eq_true_eq] at h
     exact ⟨cs, rfl, h.1, h.2⟩
+
+/-- the former model artefact (recursion bound of the checker's look-back at the left neighbour): with the
+    bound taken from the previous argument on, the deeply nested left neighbour is skipped like the C code does
+    and the text is read as its denotation (8 array headers, the 1, the three cells of the range) -/
+theorem deep_neighbour_reads : Sentence.wf exDeep = true ∧ agrees exDeep L0 = true ∧
+    C11.countPrintedArgVals (render exDeep L0) = .ok 12 := by
+  decide +kernel
 
 /-- `10 8...2 3x["b" "c"] [1 2...] [1...5] [] [1 1...] 4xnil`: integer ranges with and without a
     left neighbour, open-ended arrays with and without a step -/
